@@ -216,7 +216,7 @@ class GCodeBuilder(GCodeCore):
         length_units = LengthUnits(length_units)
 
         if length_units != self.state.length_units:
-            in_px = length_units.to_pixels(self.state.resolution)
+            in_px = self.state.length_units.to_pixels(self.state.resolution)
             self.set_resolution(length_units.scale(in_px))
             self.state._set_length_units(length_units)
 
